@@ -184,6 +184,13 @@ pub fn race_mutating_ops() -> Vec<OpSpec> {
         o(Op::RemoveAll { path: s("a/b") }),
         o(Op::RemoveAll { path: s("a") }).c(),
         o(Op::CreateFile { path: s("etc/../a/b/c/new"), flags: libc::O_WRONLY | libc::O_TRUNC, mode: 0o600 }).c(),
+        // '..' that lexically returns to the root, directly followed by components that do not exist
+        // yet: the lookup stops early (no final check of a complete walk), and whatever directory it
+        // stopped in is the one the creation happens in
+        o(Op::MkdirAll { path: s("a/../pwn/x"), mode: 0o755 }),
+        o(Op::MkdirAll { path: s("a/b/../../pwn2"), mode: 0o711 }).c(),
+        o(Op::MkdirAll { path: s("a/b/c/../../../a/../pwn3"), mode: 0o700 }),
+        o(Op::Create { path: s("a/b/../../newd"), kind: CreateKind::Dir(0o755) }),
     ]
 }
 
